@@ -126,6 +126,29 @@ pub fn run_c08(args: &Args) -> i32 {
                 if occ != 0 {
                     nontrivial += 1;
                 }
+                // (d) every PAIR of off-ray squares occupied together (a mask with stray bits may need two
+                //     of them set at once): quick under every 16th ray subset, thorough under every 2nd
+                if (thorough && k % 2 == 0) || k % 16 == 0 {
+                    let mut bits = vec![];
+                    let mut m = off;
+                    while m != 0 {
+                        let low = m & m.wrapping_neg();
+                        m ^= low;
+                        bits.push(low);
+                    }
+                    for i in 0..bits.len() {
+                        for j in (i + 1)..bits.len() {
+                            let o = occ | bits[i] | bits[j];
+                            // fast path without the bookkeeping of c08_case
+                            let dirs = if rook { &ROOK_D } else { &BISHOP_D };
+                            offray += 1;
+                            if lookup(rook, s, o) != cast(s, dirs, o) {
+                                let d = c08_case(rook, s, o);
+                                report.record(&d, || json!({"kind": "slider", "rook": rook, "square": s, "occupancy": format!("{o:#018x}")}));
+                            }
+                        }
+                    }
+                }
                 // (c) each single off-ray square toggled under every ray subset
                 // quick: under every 8th ray subset; thorough: under every ray subset
                 if thorough || k % 8 == 0 {
@@ -154,7 +177,7 @@ pub fn run_c08(args: &Args) -> i32 {
         json!({
             "evaluations": cases + offray,
             "distinct_nontrivial": nontrivial,
-            "rule": "for each of 64 squares x {rook, bishop}: every subset of the square's own rays (edge squares included), each with the off-ray squares empty / all occupied and the slider's own square empty / occupied; plus every single off-ray square toggled under the ray subsets (quick: every 8th subset, thorough: every subset). Non-trivial = distinct (piece, square, non-empty ray subset).",
+            "rule": "for each of 64 squares x {rook, bishop}: every subset of the square's own rays (edge squares included), each with the off-ray squares empty / all occupied and the slider's own square empty / occupied; plus every single off-ray square toggled under the ray subsets (quick: every 8th subset, thorough: every subset) and every pair of off-ray squares occupied together (quick: every 16th subset, thorough: every 2nd). Non-trivial = distinct (piece, square, non-empty ray subset).",
             "ray_subset_cases": cases,
             "single_off_ray_toggles": offray,
             "exhaustive": true,
